@@ -29,6 +29,30 @@ Proof. intros (ob & Ho & Hr & _). exists ob. auto. Qed.
 Lemma nr_heap s s' o : heap s' = heap s -> nr s o -> nr s' o.
 Proof. intros E (ob & Ho & Hr). exists ob. unfold hget in *. rewrite E. auto. Qed.
 
+(* the ID of the object at index o *)
+Definition hid (s : st) (o : nat) : option key := option_map o_id (hget s o).
+
+Lemma hid_qt s s' o : qt s s' -> hid s o <> None -> hid s' o = hid s o.
+Proof.
+  intros Qt H. unfold hid in *. destruct (hget s o) as [ob|] eqn:Ho; [|contradiction].
+  destruct (qt_obp _ _ Qt o ob Ho) as (ob' & Ho' & E & _). rewrite Ho'. cbn [option_map]. rewrite E. reflexivity.
+Qed.
+
+Lemma hid_heap s s' o : heap s' = heap s -> hid s' o = hid s o.
+Proof. intro E. unfold hid, hget. rewrite E. reflexivity. Qed.
+
+Lemma hg_hid s o : hg s o -> exists k, hid s o = Some k.
+Proof. intros (ob & Ho & _). exists (o_id ob). unfold hid. rewrite Ho. reflexivity. Qed.
+
+(* the last live cookie of a list, starting from a *)
+Definition lastl (a : option key) (cks : list cookie) : option key :=
+  fold_left (fun a ck => match ck with CkLive k => Some k | _ => a end) cks a.
+
+Definition islive (ck : cookie) : Prop := match ck with CkLive _ => True | _ => False end.
+
+Lemma lastl_app a x y : lastl a (x ++ y) = lastl (lastl a x) y.
+Proof. apply fold_left_app. Qed.
+
 Lemma hupd_plan s o f : plan (hupd s o f) = plan s.
 Proof. unfold hupd. destruct (hget s o); reflexivity. Qed.
 
@@ -51,22 +75,26 @@ Section Rider.
   Qed.
 
   Lemma created_G base s q : G base s ->
-    G base (created s q) /\ nc s (created s q) /\ hg (created s q) (length (heap s)).
+    G base (created s q) /\ nc s (created s q) /\ hg (created s q) (length (heap s)) /\
+    hid (created s q) (length (heap s)) = Some (KGen (supply s)).
   Proof.
     intros (I & K & P & Hq). destruct (created_eff _ _ _ _ q I K P) as (K' & P' & E & _ & Hh).
     destruct (created_inv _ _ _ _ q I) as [I' _].
     split; [split; [exact I' | split; [exact K' | split; [exact P' | eapply Q_new; eassumption]]]|].
-    split; [split; [exact (en_now _ _ _ E) | exact (en_conf _ _ _ E)] | exact Hh].
+    split; [split; [exact (en_now _ _ _ E) | exact (en_conf _ _ _ E)]|]. split; [exact Hh|].
+    unfold hid. rewrite (created_handle s q (inv_ffnd _ _ _ _ _ I)). reflexivity.
   Qed.
 
   Lemma regen_G base s o ob : G base s -> hget s o = Some ob -> hg s o ->
-    G base (regen s o ob) /\ nc s (regen s o ob) /\ hg (regen s o ob) o.
+    G base (regen s o ob) /\ nc s (regen s o ob) /\ hg (regen s o ob) o /\
+    hid (regen s o ob) o = Some (KGen (supply s)).
   Proof.
     intros (I & K & P & Hq) Ho Hh.
     destruct (regen_eff _ _ _ _ _ _ I K P Ho (Nat.le_0_l o) (fun x => x) Hh) as (K' & P' & E & Hh').
     pose proof (regen_inv _ _ _ _ _ _ I Ho (Nat.le_0_l o) (fun x => x)) as I'.
     split; [split; [exact I' | split; [exact K' | split; [exact P' | eapply Q_repl; eassumption]]]|].
-    split; [split; [exact (er_now _ _ _ E) | exact (er_conf _ _ _ E)] | exact Hh'].
+    split; [split; [exact (er_now _ _ _ E) | exact (er_conf _ _ _ E)]|]. split; [exact Hh'|].
+    unfold hid. rewrite (regen_handle s o ob (inv_ffnd _ _ _ _ _ I) Ho). reflexivity.
   Qed.
 
   Lemma cdel_G base s k : G base s -> DEL s k ->
@@ -90,16 +118,27 @@ Section Rider.
 
   (* ---------------------------------------------------------------- Start *)
 
-  Definition sres_ok (s' : st) (res : result (option nat)) : Prop :=
-    forall o, res = Ok (Some o) -> hg s' o.
+  (* the session Start returns: a handle that agrees with the store, whose ID
+     stands in relation R to the cookies *)
+  Definition sres_ok (s' : st) (res : result (option nat)) (R : key -> Prop) : Prop :=
+    forall o, res = Ok (Some o) -> hg s' o /\ exists k, hid s' o = Some k /\ R k.
+
+  Definition ck_found (kf : key) (pre cks : list cookie) (k : key) : Prop :=
+    (cks = pre /\ k = kf) \/ cks = pre ++ [CkLive k] \/ cks = pre ++ [CkDelete; CkLive k].
+
+  (* the cookies of a Start that returns the session with ID k *)
+  Definition ck_start (q : request) (cks : list cookie) (k : key) : Prop :=
+    (cks = [] /\ q_cookie q = CKey k) \/ cks = [CkLive k] \/ cks = [CkDelete; CkLive k].
 
   Lemma start_none_G base s q cks : G base s ->
-    exists s' res cks', start_none s q cks = (s', res, cks') /\ G base s' /\ nc s s' /\ sres_ok s' res.
+    exists s' res cks', start_none s q cks = (s', res, cks') /\ G base s' /\ nc s s' /\
+      sres_ok s' res (fun k => cks' = cks ++ [CkLive k]).
   Proof.
     intros Hg. unfold start_none. destruct (q_create q).
     - rewrite create_session_ff by (eapply inv_ffnd; apply Hg).
-      destruct (created_G _ _ q Hg) as (G' & N' & H'). do 3 eexists. split; [reflexivity|].
-      split; [exact G'|]. split; [exact N'|]. intros o E. injection E as <-. exact H'.
+      destruct (created_G _ _ q Hg) as (G' & N' & H' & Hi'). do 3 eexists. split; [reflexivity|].
+      split; [exact G'|]. split; [exact N'|]. intros o E. injection E as <-. split; [exact H'|].
+      eexists. split; [exact Hi' | reflexivity].
     - do 3 eexists. split; [reflexivity|]. split; [exact Hg|]. split; [apply nc_refl|]. intros o E. discriminate.
   Qed.
 
@@ -107,7 +146,8 @@ Section Rider.
     G base s -> hget s o = Some ob -> o_id ob = k -> sc s o ->
     (forall s' res cks', start_found c s q k o ob cks = (s', res, cks') ->
        In CkDelete cks' \/ res = Err EExpiredID -> DEL s k) ->
-    exists s' res cks', start_found c s q k o ob cks = (s', res, cks') /\ G base s' /\ nc s s' /\ sres_ok s' res.
+    exists s' res cks', start_found c s q k o ob cks = (s', res, cks') /\ G base s' /\ nc s s' /\
+      sres_ok s' res (ck_found k cks cks').
   Proof.
     intros Hg Ho Hid Hsc Hdel. pose proof Hg as (I & K & P & Hq).
     assert (F : ffnd s) by (eapply inv_ffnd; exact I). assert (Hp : plan s = []) by apply F.
@@ -130,18 +170,23 @@ Section Rider.
              do 3 eexists. split; [reflexivity|]. split; [|split].
              ++ eapply G_qt; [apply inv_hupd; [exact I1 | reflexivity] | exact K2 | exact (qt_trans _ _ _ Q1 Q2) | exact Hg].
              ++ apply nc_qt. exact (qt_trans _ _ _ Q1 Q2).
-             ++ intros o2 E2. injection E2 as <-. eapply hg_qt; [exact Q2 | apply Hh1; reflexivity].
+             ++ intros o2 E2. injection E2 as <-. pose proof (Hh1 o' eq_refl) as Hh'.
+                split; [eapply hg_qt; eassumption|]. destruct Hh' as (ob' & Ho' & _). rewrite Ho'.
+                exists (o_id ob'). split; [|right; left; reflexivity].
+                rewrite (hid_qt _ _ o' Q2); unfold hid; rewrite Ho'; [reflexivity | discriminate].
           -- do 3 eexists. split; [reflexivity|]. split; [eapply G_qt; eassumption|].
              split; [apply nc_qt; exact Q1 | intros o2 E2; discriminate].
       + assert (Hh : hg s o) by (exists ob; split; [exact Ho | split; [exact Hr | exact Hs]]).
         destruct (c_idexpiry c <=? since (r_created (o_rec ob)) (now s))%Z eqn:Ha.
         * rewrite (sf_rotate _ _ _ _ _ _ _ F Ho Hv Hr Ha).
-          destruct (regen_G _ _ _ _ Hg Ho Hh) as (G1 & N1 & H1). pose proof G1 as (I1 & K1 & _).
+          destruct (regen_G _ _ _ _ Hg Ho Hh) as (G1 & N1 & H1 & Hi1). pose proof G1 as (I1 & K1 & _).
           destruct (hupd_qt (regen s o ob) o (upd_req (regen s o ob) q) (fun _ => eq_refl) K1) as [Q2 K2].
           do 3 eexists. split; [reflexivity|]. split; [|split].
           -- eapply G_qt; [apply inv_hupd; [exact I1 | reflexivity] | exact K2 | exact Q2 | exact G1].
           -- eapply nc_trans; [exact N1 | apply nc_qt; exact Q2].
-          -- intros o2 E2. injection E2 as <-. eapply hg_qt; eassumption.
+          -- intros o2 E2. injection E2 as <-. split; [eapply hg_qt; eassumption|].
+             exists (KGen (supply s)). split; [|right; left; reflexivity].
+             rewrite (hid_qt _ _ o Q2); [exact Hi1 | rewrite Hi1; discriminate].
         * destruct (sat_add (c_idexpiry c) (c_grace c) <=? since (r_created (o_rec ob)) (now s))%Z eqn:Hb.
           -- assert (E : start_found c s q k o ob cks = (fst (cache_delete s k), Err EExpiredID, cks)).
              { apply sf_backstop; [exact Hp | exact Hv | rewrite Ha; apply andb_false_r | exact Hb]. }
@@ -152,7 +197,9 @@ Section Rider.
              do 3 eexists. split; [reflexivity|]. split; [|split].
              ++ eapply G_qt; [apply inv_hupd; [exact I | reflexivity] | exact K2 | exact Q2 | exact Hg].
              ++ apply nc_qt. exact Q2.
-             ++ intros o2 E2. injection E2 as <-. eapply hg_qt; eassumption.
+             ++ intros o2 E2. injection E2 as <-. split; [eapply hg_qt; eassumption|].
+                exists k. split; [|left; split; reflexivity].
+                rewrite (hid_qt _ _ o Q2); unfold hid; rewrite Ho; [cbn [option_map]; rewrite Hid; reflexivity | discriminate].
     - pose proof (sf_invalid c s q k o ob cks Hp Ho Hv) as E. rewrite Hid in E.
       assert (Hd : DEL s k).
       { destruct (q_create q).
@@ -162,18 +209,25 @@ Section Rider.
       destruct (cdel_G _ _ k Hg Hd) as (G1 & N1 & _). rewrite E.
       destruct (q_create q).
       + rewrite create_session_ff by (eapply inv_ffnd; apply G1).
-        destruct (created_G _ _ q G1) as (G' & N' & H'). do 3 eexists. split; [reflexivity|].
-        split; [exact G'|]. split; [eapply nc_trans; eassumption|]. intros o2 E2. injection E2 as <-. exact H'.
+        destruct (created_G _ _ q G1) as (G' & N' & H' & Hi'). do 3 eexists. split; [reflexivity|].
+        split; [exact G'|]. split; [eapply nc_trans; eassumption|]. intros o2 E2. injection E2 as <-. split; [exact H'|].
+        eexists. split; [exact Hi' | right; right; reflexivity].
       + do 3 eexists. split; [reflexivity|]. split; [exact G1|]. split; [exact N1|]. intros o2 E2. discriminate.
   Qed.
 
   Lemma start_G base s q : G base s ->
     (forall k s' res cks, q_cookie q = CKey k -> start s q = (s', res, cks) ->
        In CkDelete cks \/ res = Err EExpiredID -> forall s1, qt s s1 -> Q s1 -> DEL s1 k) ->
-    exists s' res cks, start s q = (s', res, cks) /\ G base s' /\ nc s s' /\ sres_ok s' res.
+    exists s' res cks, start s q = (s', res, cks) /\ G base s' /\ nc s s' /\ sres_ok s' res (ck_start q cks).
   Proof.
     intros Hg Hdel. pose proof Hg as (I & K & P & Hq). rewrite start_eq in *.
-    destruct (q_cookie q) as [|k|n]; try (apply start_none_G; exact Hg).
+    assert (Hnone : forall s0 pre, G base s0 -> nc s s0 -> pre = [] \/ pre = [CkDelete] ->
+              exists s' res cks, start_none s0 q pre = (s', res, cks) /\ G base s' /\ nc s s' /\ sres_ok s' res (ck_start q cks)).
+    { intros s0 pre G0 N0 Hpre. destruct (start_none_G base s0 q pre G0) as (s' & res & cks & E' & G' & N' & H').
+      exists s', res, cks. split; [exact E'|]. split; [exact G'|]. split; [eapply nc_trans; eassumption|].
+      intros o Eo. destruct (H' o Eo) as (Hh & k0 & Hk & ->). split; [exact Hh|]. exists k0. split; [exact Hk|].
+      destruct Hpre as [-> | ->]; [right; left; reflexivity | right; right; reflexivity]. }
+    destruct (q_cookie q) as [|k|n] eqn:Eq; try (apply Hnone; [exact Hg | apply nc_refl | left; reflexivity]).
     destruct (cache_get_inv _ _ _ _ _ k I) as (s1 & r & E & I1 & Hr).
     destruct (cache_get_qt _ _ _ _ k I K) as (Q1 & K1 & Hobj). rewrite E in *. cbn [fst snd] in *.
     assert (G1 : G base s1) by (eapply G_qt; eassumption).
@@ -183,17 +237,18 @@ Section Rider.
       destruct (start_found_G base (conf s) s1 q k o ob [] G1 Ho Hid) as (s' & res & cks & E' & G' & N' & H').
       + exists ob. split; [exact Ho | rewrite Hid; exact Hs].
       + intros s' res cks E' Hor. apply (Hdel k s' res cks eq_refl E' Hor s1 Q1). apply G1.
-      + exists s', res, cks. split; [exact E'|]. split; [exact G'|]. split; [|exact H'].
-        eapply nc_trans; [apply nc_qt; exact Q1 | exact N'].
-    - destruct (start_none_G base s1 q [CkDelete] G1) as (s' & res & cks & E' & G' & N' & H').
-      exists s', res, cks. split; [exact E'|]. split; [exact G'|]. split; [|exact H'].
-      eapply nc_trans; [apply nc_qt; exact Q1 | exact N'].
+      + exists s', res, cks. split; [exact E'|]. split; [exact G'|].
+        split; [eapply nc_trans; [apply nc_qt; exact Q1 | exact N']|].
+        intros o2 Eo. destruct (H' o2 Eo) as (Hh & k0 & Hk & Hck). split; [exact Hh|]. exists k0. split; [exact Hk|].
+        destruct Hck as [[-> ->]|[->| ->]]; [left; split; [reflexivity | exact Eq] | right; left; reflexivity | right; right; reflexivity].
+    - apply Hnone; [exact G1 | apply nc_qt; exact Q1 | right; reflexivity].
   Qed.
 
   (* ----------------------------------------------------- handler operations *)
 
   Lemma regenerate_G base s o : G base s -> hg s o ->
-    exists s', regenerate s o = (s', Ok tt, [CkLive (KGen (supply s))]) /\ G base s' /\ nc s s' /\ hg s' o.
+    exists s', regenerate s o = (s', Ok tt, [CkLive (KGen (supply s))]) /\ G base s' /\ nc s s' /\ hg s' o /\
+      hid s' o = Some (KGen (supply s)).
   Proof.
     intros Hg Hh. pose proof Hh as (ob & Ho & _). pose proof Hg as (I & _).
     rewrite (regenerate_ff _ _ _ (inv_ffnd _ _ _ _ _ I) Ho). eexists. split; [reflexivity|].
@@ -201,7 +256,8 @@ Section Rider.
   Qed.
 
   Lemma login_G base s o u ex : G base s -> hg s o ->
-    exists s' n, login s o u ex = (s', Ok tt, [CkLive (KGen n)]) /\ G base s' /\ nc s s' /\ hg s' o.
+    exists s' n, login s o u ex = (s', Ok tt, [CkLive (KGen n)]) /\ G base s' /\ nc s s' /\ hg s' o /\
+      hid s' o = Some (KGen n).
   Proof.
     intros Hg Hh. pose proof Hg as (I & K & P & Hq). pose proof (hg_hok _ _ Hh) as Hok. unfold login.
     assert (Hpre : exists s1, (if ex then logout_user s (fst u) else let '(s0, _) := logout s o in (s0, Ok tt)) = (s1, Ok tt)
@@ -228,35 +284,42 @@ Section Rider.
     assert (Q13 : qt s (cset s2 o ob2)) by (eapply qt_trans; [exact Q1|]; eapply qt_trans; eassumption).
     assert (G3 : G base (cset s2 o ob2)) by (eapply G_qt; eassumption).
     assert (H3 : hg (cset s2 o ob2) o) by (eapply hg_qt; eassumption).
-    destruct (regenerate_G _ _ _ G3 H3) as (s' & E' & G' & N' & H'). rewrite E'.
-    exists s'. eexists. split; [reflexivity|]. split; [exact G'|]. split; [|exact H'].
+    destruct (regenerate_G _ _ _ G3 H3) as (s' & E' & G' & N' & H' & Hi'). rewrite E'.
+    exists s'. eexists. split; [reflexivity|]. split; [exact G'|]. split; [|split; [exact H' | exact Hi']].
     eapply nc_trans; [apply nc_qt; exact Q13 | exact N'].
   Qed.
 
   Lemma do_sop_G base s o hc op : G base s -> hg s o ->
     (op = SDestroy -> forall ob, hget s o = Some ob -> DEL s (o_id ob)) ->
-    exists s' r cks, do_sop s o hc op = (s', r, cks) /\ G base s' /\ nc s s' /\ (op <> SDestroy -> hg s' o) /\ nr s' o.
+    exists s' r cks, do_sop s o hc op = (s', r, cks) /\ G base s' /\ nc s s' /\ (op <> SDestroy -> hg s' o) /\ nr s' o /\
+      (op <> SDestroy -> Forall islive cks) /\ lastl (hid s o) cks = hid s' o.
   Proof.
     intros Hg Hh Hd. pose proof Hg as (I & K & P & Hq). pose proof Hh as (ob & Ho & Hr & Hs).
     assert (Hp : plan s = []) by apply (i_plan _ _ _ _ _ I).
+    (* the common ending of the operations that are quiet and set no cookie *)
+    assert (Hquiet : forall s' (r : sres), G base s' -> qt s s' ->
+              exists s'' r' cks, (s', r, @nil cookie) = (s'', r', cks) /\ G base s'' /\ nc s s'' /\ (op <> SDestroy -> hg s'' o) /\
+                nr s'' o /\ (op <> SDestroy -> Forall islive cks) /\ lastl (hid s o) cks = hid s'' o).
+    { intros s' r G' Q'. do 3 eexists. split; [reflexivity|]. split; [exact G'|]. split; [apply nc_qt; exact Q'|].
+      assert (H' : hg s' o) by (eapply hg_qt; eassumption).
+      split; [intros _; exact H'|]. split; [apply hg_nr; exact H'|]. split; [intros _; constructor|].
+      cbn [lastl fold_left]. symmetry. apply hid_qt; [exact Q'|]. unfold hid. rewrite Ho. discriminate. }
     assert (Hupd : forall f, (forall r, r_ref (f r) = r_ref r) ->
                G base (hupd s o f) /\ qt s (hupd s o f) /\ hg (hupd s o f) o).
     { intros f Hf. destruct (hupd_qt s o f Hf K) as [Q1 K1].
       split; [eapply G_qt; [apply inv_hupd; assumption | exact K1 | exact Q1 | exact Hg]|].
       split; [exact Q1 | eapply hg_qt; eassumption]. }
     assert (Hsave : forall s1, G base s1 -> qt s s1 -> hg s1 o ->
-               exists s', save_direct s1 o = (s', Ok tt) /\ G base s' /\ nc s s' /\ hg s' o).
+               exists s', save_direct s1 o = (s', Ok tt) /\ G base s' /\ qt s s').
     { intros s1 G1 Q1 H1. pose proof G1 as (I1 & K1 & _).
       destruct (save_direct_inv _ _ _ _ _ I1 (hg_hok _ _ H1)) as (s' & E & I' & _).
       destruct (save_direct_qt s1 o (i_plan _ _ _ _ _ I1) K1 (hg_sc _ _ H1)) as [Q2 K2]. rewrite E in *. cbn [fst] in *.
-      exists s'. split; [reflexivity|]. split; [eapply G_qt; eassumption|].
-      split; [apply nc_qt; eapply qt_trans; eassumption | eapply hg_qt; eassumption]. }
+      exists s'. split; [reflexivity|]. split; [eapply G_qt; eassumption | eapply qt_trans; eassumption]. }
     destruct op as [k v|k|k|k|u ex| | |]; cbn [do_sop].
     - unfold data_of. rewrite Ho. destruct (r_data (o_rec ob)) as [d|].
       + destruct (Hupd (fun r => set_data r (Some (kv_set d k v))) (fun _ => eq_refl)) as (G1 & Q1 & H1).
-        destruct (Hsave _ G1 Q1 H1) as (s' & E & G' & N' & H'). rewrite E.
-        do 3 eexists. split; [reflexivity|]. split; [exact G'|]. split; [exact N' | split; [intros _; exact H' | apply hg_nr; exact H']].
-      + do 3 eexists. split; [reflexivity|]. split; [exact Hg|]. split; [apply nc_refl | split; [intros _; exact Hh | apply hg_nr; exact Hh]].
+        destruct (Hsave _ G1 Q1 H1) as (s' & E & G' & Q'). rewrite E. apply Hquiet; assumption.
+      + apply Hquiet; [exact Hg | apply qt_refl].
     - unfold data_of. rewrite Ho.
       assert (Hx : exists s1, (match r_data (o_rec ob) with
                                | Some d => hupd s o (fun r => set_data r (Some (kv_del d k)))
@@ -266,27 +329,28 @@ Section Rider.
           eexists. split; [reflexivity|]. auto.
         - exists s. split; [reflexivity|]. split; [exact Hg|]. split; [apply qt_refl | exact Hh]. }
       destruct Hx as (s1 & -> & G1 & Q1 & H1).
-      destruct (Hsave _ G1 Q1 H1) as (s' & E & G' & N' & H'). rewrite E.
-      do 3 eexists. split; [reflexivity|]. split; [exact G'|]. split; [exact N' | split; [intros _; exact H' | apply hg_nr; exact H']].
-    - do 3 eexists. split; [reflexivity|]. split; [exact Hg|]. split; [apply nc_refl | split; [intros _; exact Hh | apply hg_nr; exact Hh]].
+      destruct (Hsave _ G1 Q1 H1) as (s' & E & G' & Q'). rewrite E. apply Hquiet; assumption.
+    - apply Hquiet; [exact Hg | apply qt_refl].
     - unfold data_of. rewrite Ho. destruct (r_data (o_rec ob)) as [d|].
       + destruct (kv_get d k).
         * destruct (Hupd (fun r => set_data r (Some (kv_del d k))) (fun _ => eq_refl)) as (G1 & Q1 & H1).
-          do 3 eexists. split; [reflexivity|]. split; [exact G1|]. split; [apply nc_qt; exact Q1 | split; [intros _; exact H1 | apply hg_nr; exact H1]].
-        * do 3 eexists. split; [reflexivity|]. split; [exact Hg|]. split; [apply nc_refl | split; [intros _; exact Hh | apply hg_nr; exact Hh]].
-      + do 3 eexists. split; [reflexivity|]. split; [exact Hg|]. split; [apply nc_refl | split; [intros _; exact Hh | apply hg_nr; exact Hh]].
-    - destruct (login_G _ _ _ u ex Hg Hh) as (s' & n & E & G' & N' & H'). rewrite E.
-      do 3 eexists. split; [reflexivity|]. split; [exact G'|]. split; [exact N' | split; [intros _; exact H' | apply hg_nr; exact H']].
+          apply Hquiet; assumption.
+        * apply Hquiet; [exact Hg | apply qt_refl].
+      + apply Hquiet; [exact Hg | apply qt_refl].
+    - destruct (login_G _ _ _ u ex Hg Hh) as (s' & n & E & G' & N' & H' & Hi'). rewrite E.
+      do 3 eexists. split; [reflexivity|]. split; [exact G'|]. split; [exact N'|]. split; [intros _; exact H'|].
+      split; [apply hg_nr; exact H'|]. split; [intros _; repeat constructor | rewrite Hi'; reflexivity].
     - destruct (logout_inv _ _ _ _ _ I (hg_hok _ _ Hh)) as (s' & E & I' & _).
       destruct (logout_qt s o Hp K (hg_sc _ _ Hh)) as [Q1 K1]. rewrite E in *. cbn [fst] in *.
-      do 3 eexists. split; [reflexivity|]. split; [eapply G_qt; eassumption|].
-      split; [apply nc_qt; exact Q1 | split; [intros _; eapply hg_qt; eassumption | apply hg_nr; eapply hg_qt; eassumption]].
-    - destruct (regenerate_G _ _ _ Hg Hh) as (s' & E & G' & N' & H'). rewrite E.
-      do 3 eexists. split; [reflexivity|]. split; [exact G'|]. split; [exact N' | split; [intros _; exact H' | apply hg_nr; exact H']].
+      apply Hquiet; [eapply G_qt; eassumption | exact Q1].
+    - destruct (regenerate_G _ _ _ Hg Hh) as (s' & E & G' & N' & H' & Hi'). rewrite E.
+      do 3 eexists. split; [reflexivity|]. split; [exact G'|]. split; [exact N'|]. split; [intros _; exact H'|].
+      split; [apply hg_nr; exact H'|]. split; [intros _; repeat constructor | rewrite Hi'; reflexivity].
     - rewrite (destroy_ff _ _ _ _ Hp Ho).
       destruct (cdel_G _ _ (o_id ob) Hg (Hd eq_refl ob Ho)) as (G' & N' & _ & Hheap).
       do 3 eexists. split; [reflexivity|]. split; [exact G'|]. split; [exact N'|]. split; [intros Hne; contradiction|].
-      eapply nr_heap; [exact Hheap | apply hg_nr; exact Hh].
+      split; [eapply nr_heap; [exact Hheap | apply hg_nr; exact Hh]|]. split; [intros Hne; contradiction|].
+      cbn [lastl fold_left]. symmetry. apply hid_heap. exact Hheap.
   Qed.
 
   (* ---------------------------------------------------------------- scripts *)
@@ -296,27 +360,35 @@ Section Rider.
 
   Lemma run_script_G base hc : forall ops s o, G base s -> hg s o -> FOK (now s) -> dperm o ops ->
     exists s' rs cks, run_script s o hc ops = (s', rs, cks) /\ G base s' /\ nc s s' /\
-      (~ In SDestroy (firstn (length rs) ops) -> hg s' o) /\ nr s' o.
+      (~ In SDestroy (firstn (length rs) ops) -> hg s' o /\ Forall islive cks) /\ nr s' o /\
+      lastl (hid s o) cks = hid s' o.
   Proof.
     induction ops as [|op t IH]; intros s o Hg Hh Hf Hd; cbn [run_script].
-    - do 3 eexists. split; [reflexivity|]. split; [exact Hg|]. split; [apply nc_refl | split; [intros _; exact Hh | apply hg_nr; exact Hh]].
-    - destruct (do_sop_G base s o hc op Hg Hh) as (s1 & r & cks & E & G1 & N1 & H1 & R1).
+    - do 3 eexists. split; [reflexivity|]. split; [exact Hg|]. split; [apply nc_refl|].
+      split; [intros _; split; [exact Hh | constructor]|]. split; [apply hg_nr; exact Hh | reflexivity].
+    - destruct (do_sop_G base s o hc op Hg Hh) as (s1 & r & cks & E & G1 & N1 & H1 & R1 & L1 & C1).
       { intros -> ob Ho. destruct Hh as (ob' & Ho' & _ & Hs). rewrite Ho in Ho'. injection Ho' as <-.
         apply (Hd (or_introl eq_refl) s ob); [apply Hg | exact Ho | exact Hs]. }
       rewrite E. destruct N1 as [Nn Nc].
       destruct (fire_due_G _ _ G1) as (G2 & N2 & H2 & _); [rewrite Nn; exact Hf|].
-      assert (R2 : nr (fire_due s1) o).
-      { eapply nr_heap; [|exact R1]. destruct G1 as (I1 & _). apply (HistInv3.fire_due_inv _ _ _ _ I1). }
+      assert (Hheap : heap (fire_due s1) = heap s1) by (destruct G1 as (I1 & _); apply (HistInv3.fire_due_inv _ _ _ _ I1)).
+      assert (R2 : nr (fire_due s1) o) by (eapply nr_heap; eassumption).
+      assert (C2 : lastl (hid s o) cks = hid (fire_due s1) o) by (rewrite (hid_heap _ _ o Hheap); exact C1).
       assert (N12 : nc s (fire_due s1)) by (eapply nc_trans; [split; eassumption | exact N2]).
       match goal with |- context [if ?c then _ else _] => destruct c eqn:Estop end.
       + do 3 eexists. split; [reflexivity|]. split; [exact G2|]. split; [exact N12|].
-        split; [|exact R2]. cbn [length firstn]. intro Hn. apply H2. apply H1. intros ->. apply Hn. left. reflexivity.
+        split; [|split; [exact R2 | exact C2]]. cbn [length firstn]. intro Hn.
+        assert (Hop : op <> SDestroy) by (intros ->; apply Hn; left; reflexivity).
+        split; [apply H2; apply H1; exact Hop | apply L1; exact Hop].
       + assert (Hop : op <> SDestroy) by (intros ->; discriminate).
-        destruct (IH (fire_due s1) o G2 (H2 o (H1 Hop))) as (s' & rs & cks' & E' & G' & N' & H' & R').
+        destruct (IH (fire_due s1) o G2 (H2 o (H1 Hop))) as (s' & rs & cks' & E' & G' & N' & H' & R' & C').
         { destruct N12 as [-> _]. exact Hf. }
         { intros Hin. apply Hd. right. exact Hin. }
         rewrite E'. do 3 eexists. split; [reflexivity|]. split; [exact G'|].
-        split; [eapply nc_trans; eassumption|]. split; [|exact R']. cbn [length firstn]. intro Hn. apply H'. intro Hin. apply Hn. right. exact Hin.
+        split; [eapply nc_trans; eassumption|]. split; [|split; [exact R'|]].
+        * cbn [length firstn]. intro Hn. destruct H' as [Hh' Hl']; [intro Hin; apply Hn; right; exact Hin|].
+          split; [exact Hh' | apply Forall_app; split; [apply L1; exact Hop | exact Hl']].
+        * rewrite lastl_app, C2. exact C'.
   Qed.
 
   (* ----------------------------------------------------------- request body *)
@@ -333,12 +405,12 @@ Section Rider.
     destruct (fire_due_G _ _ G2) as (G3 & N3 & H3 & _); [destruct N2 as [-> _]; exact Hf|].
     assert (N23 : nc s (fire_due s2)) by (eapply nc_trans; eassumption).
     destruct res as [[o|]|e|e].
-    - destruct (run_script_G base (had_cookie q) script (fire_due s2) o G3 (H3 o (H2 o eq_refl))) as (s3 & rs & cks' & E' & G' & N' & _ & R').
+    - destruct (run_script_G base (had_cookie q) script (fire_due s2) o G3 (H3 o (proj1 (H2 o eq_refl)))) as (s3 & rs & cks' & E' & G' & N' & _ & R' & _).
       { destruct N23 as [-> _]. exact Hf. }
       { apply Hdp. }
       cbv zeta. rewrite E'. do 6 eexists. split; [reflexivity|]. split; [exact G'|]. split; [eapply nc_trans; eassumption|].
       split; intros k r Hv; unfold handle_view in Hv.
-      + destruct (hg_nr _ _ (H3 o (H2 o eq_refl))) as (ob & Ho & Hr). rewrite Ho in Hv. injection Hv as _ <-. exact Hr.
+      + destruct (hg_nr _ _ (H3 o (proj1 (H2 o eq_refl)))) as (ob & Ho & Hr). rewrite Ho in Hv. injection Hv as _ <-. exact Hr.
       + destruct R' as (ob & Ho & Hr). rewrite Ho in Hv. injection Hv as _ <-. exact Hr.
     - do 6 eexists. split; [reflexivity|]. split; [assumption|]. split; [assumption|]. split; intros; discriminate.
     - do 6 eexists. split; [reflexivity|]. split; [assumption|]. split; [assumption|]. split; intros; discriminate.
